@@ -331,6 +331,13 @@ func runC04(c *core.Ctx) {
 	c.Rule("R7", "bytes stripped from a decoded frame are counted from the frame's first byte (the strip runs over the reader that starts with the header, or the count subtracts the header length)", 1)
 	runStripBase(c)
 
+	// ---- R8 the carriers and transports under the codecs keep the bytes: conversions read with the count and
+	// before the error, writers do not retain the caller's slice (C14-R2/R5), the transport wrappers have one
+	// write sink and one read source (C17-R1/R2)
+	c.Rule("R8", "byte carriers and transport wrappers under the codecs preserve content and order (shared with C14-R2/R5, C17-R1/R2)", 4)
+	importObligations(c, runC14, "R8", func(o *core.Obligation) bool { return o.Rule == "R2" || o.Rule == "R5" })
+	importObligations(c, runC17, "R8", func(o *core.Obligation) bool { return o.Rule == "R1" || o.Rule == "R2" })
+
 	// ---- R5 delimiter match
 	for _, fc := range codecs {
 		if fc.read == nil {
